@@ -7,7 +7,7 @@ here="$(cd "$(dirname "${BASH_SOURCE[0]}")/.." && pwd)"
 wt=/tmp/wt-regress-$$
 git -C /repo worktree add -q --detach "$wt" HEAD || exit 3
 trap 'git -C /repo worktree remove --force "$wt" >/dev/null 2>&1' EXIT
-ids="${@:-$(ls "$here/seeded" | grep -E '^C[0-9]+-(r2-)?m[0-9]+$')}"
+ids="${@:-$(ls "$here/seeded" | grep -E '^C[0-9]+-(r[0-9]-)?m[0-9]+$')}"
 out="$here/seeded/RESULTS.md"; [ $# -gt 0 ] && out="$here/seeded/RESULTS.partial.md"
 {
 echo "# Seeded defects against /repo $(git -C /repo rev-parse --short HEAD) - $(date -u +%Y-%m-%dT%H:%MZ)"
